@@ -60,7 +60,7 @@ def corrupt(rng, ev, pool):
         if isinstance(v, bool):
             new = not v
         elif isinstance(v, int):
-            new = v + rng.choice([1, -1]) if v != 0 else 1
+            new = (v + rng.choice([1, -1]) if v != 0 else 1) if rng.random() < 0.5 else 2 * v + 3   # small and large
         elif isinstance(v, str):
             others = [o for o in pool.get(f, ()) if o != v]
             if not others:
@@ -109,6 +109,20 @@ def selftest_trace(wd, module, constants, events, rng, per_batch, n_batches, sta
             if f:
                 done[(evs[k]["tid"], evs[k]["seq"])] = f
         got, err = run_module(wd, module, constants, evs, f"corrupt{b}")
+        if got is None and len(done) > 1:
+            # the batch made TLC stop with an evaluation error: find out which corruptions do that, one at a time (at most 8)
+            by_key = {(e["tid"], e["seq"]): k for k, e in enumerate(evs)}
+            for key, f in list(done.items())[:8]:
+                single = json.loads(json.dumps(events))
+                single[by_key[key]] = evs[by_key[key]]
+                g1, _e1 = run_module(wd, module, constants, single, f"corrupt{b}s")
+                st = stats.setdefault(module, {}).setdefault(f, [0, 0, 0])
+                st[0] += 1
+                if g1 is None:
+                    st[2] += 1
+                elif (key in g1 and key not in base) or ((key[0], key[1] + 1) in g1 and (key[0], key[1] + 1) not in base):
+                    st[1] += 1
+            continue
         for key, f in done.items():
             st = stats.setdefault(module, {}).setdefault(f, [0, 0, 0])
             st[0] += 1
